@@ -279,7 +279,7 @@ def run(ctx) -> None:
         missing = [(r, c) for r in range(32) for c in range(240) if f"{r},{c}" not in owners]
         if missing:
             ctx.violation(f"C15/{impl}/pixelmap/pixels-without-a-vram-bit", f"{impl}: {len(missing)} visible pixels are not driven by any VRAM bit, e.g. {missing[:5]}",
-                          {"pixelmap": impl, "key": [0, 0, 0, 0]})
+                          {"pixelmap": impl, "key": [0, 0, 0, 0], "whole": True})
         ctx.coverage[f"pixels_mapped_{impl}"] = len(owners)
     # the two implementations must also agree on the map itself
     mp = {k: v for r in pm if r["impl"] == "python" for k, v in r["owner"].items()}
@@ -316,9 +316,23 @@ def replay(ctx, w) -> Optional[str]:
         judge(hist, run_py(hist), rs_unpack(rb.harness().call(rs_req(hist)), hist), vb)
     elif "pixelmap" in w:
         impls = ("python", "rust") if w["pixelmap"] == "both" else (w["pixelmap"],)
+        owners = {}
         for impl in impls:
-            r = _pixelmap((impl, w["key"][0], [w["key"][1]]))
-            vb.d.update(r["vb"].d)
+            pages = range(8) if w.get("whole") else [w["key"][1]]
+            chips = (0, 1) if w.get("whole") else (w["key"][0],)
+            owners[impl] = {}
+            for chip in chips:
+                r = _pixelmap((impl, chip, list(pages)))
+                vb.d.update(r["vb"].d)
+                owners[impl].update(r["owner"])
+            if w.get("whole"):
+                missing = [(r_, c) for r_ in range(32) for c in range(240) if f"{r_},{c}" not in owners[impl]]
+                if missing:
+                    return f"{impl}: {len(missing)} visible pixels are not driven by any VRAM bit"
+        if w["pixelmap"] == "both":
+            diff = [k for k in owners["python"] if owners["rust"].get(k) != owners["python"][k]]
+            if diff:
+                return f"pixel {diff[0]}: python {owners['python'][diff[0]]} rust {owners['rust'].get(diff[0])}"
     elif "single" in w:
         vb = _single_write_check(w["single"])
     for sig, (cnt, wl) in vb.d.items():
